@@ -14,6 +14,7 @@ CONSTANTS
  InnerForNestRoots = TRUE
  PadsEveryTextNode = FALSE
  CountsPerTextNode = TRUE
+ AllFlagAssignments = FALSE
  SeparatesRunningText = TRUE
 SPECIFICATION MSpec
 INVARIANTS Inv_ViewsAgree Inv_CountExceedsByJoints
